@@ -131,3 +131,18 @@ claim("C01", "other",
       "with the LAMMPS reference (R-ALG), line-protocol counting (R-PROTO), index-role rules (R-IDX), branch exhaustiveness "
       "(R-SIB), loop/typestate rules for wrappers, dispatch table",
       "DESIGN.md section 4, C01")
+
+claim("C14", "other",
+      "All six (rank, spacing) arms of time_correlation are selected by folding the rank and spacing tests and decided "
+      "structurally for every series: evenly spaced frames visit every pair 0<=origin<=later<=T-1 once (later over range(T), "
+      "lag over range(later+1)), store at slot = later-origin, count once per contribution and divide by the counts; unevenly "
+      "spaced frames use origin 0 only; in every arm the product is (later value) x conj(earlier value), reduced by the real "
+      "part of the sum over particles (and components) or the per-particle trace of the matrix product; the series is divided "
+      "by its lag-zero value; t = (timestep - first) dt; the CSV is the returned frame. The spacing test itself is decided by "
+      "evaluating the extracted condition on 9 timestep sequences (evenly spaced, unevenly spaced incl. symmetric patterns). "
+      "Not decided: floating-point summation order.",
+      "Trusted: numpy sum/conj/trace/matmul semantics; idiom table of product forms in pmsa/checks/c14.py (other forms give "
+      "ANALYSIS-ERROR). The spacing predicate is decided on a finite list of timestep sequences, not for all sequences.",
+      "branch folding + statement parsing into (factor, factor, reduction) with frame-index / conjugation / slot rules "
+      "(R-SIB, R-LOOPDOM), algebraic time axis (R-ALG), finite decision of the spacing predicate on the extracted condition",
+      "DESIGN.md section 4, C14")
